@@ -97,6 +97,17 @@ def gen(rng, tier, index):
         # the network delivers one more line at the moment the final save has been written
         late = netgen.make_ops(rng, cfg["version"], 1, dict(WEIGHTS, advance=0, restart=0, garbage=0, invalid_frame=0, ctl_set=0, ctl_fw=0, adopt=0), nodes=(1, 1))[-1]
         ops.append(["restart", {"late_line": late[1] if late[0] == "line" else "1;255;3;0;11;late"}])
+    elif rng.random() < 0.1:
+        # the application stops the gateway from inside the event callback of the last change (threaded flavours: on the
+        # thread that is handling that message)
+        ops.append(["advance", rng.choice([10.2, 10.5])])
+        ops.append(["stop_from_callback", rng.choice([f"{rng.choice([1, 2, 3])};255;3;0;0;{rng.randint(1, 99)}", f"{rng.choice([1, 2, 3])};255;3;0;11;bye",
+                                                      f"{rng.choice([82, 83])};255;0;0;17;2.0"])])
+    elif rng.random() < 0.12:
+        # the last change is still inside the application's (slow) event callback when stop() is called
+        ops.append(["advance", rng.choice([10.2, 10.5])])
+        ops.append(["stop_in_callback", rng.choice([f"{rng.choice([1, 2, 3])};255;3;0;0;{rng.randint(1, 99)}", f"{rng.choice([1, 2, 3])};255;3;0;11;slow",
+                                                    f"{rng.choice([80, 81])};255;0;0;17;2.0"])])
     else:
         if cfg["flavour"] not in ("mqtt", "amqtt") and rng.random() < 0.3:
             # the link is gone and the gateway is busy re-dialling (in vain) when the application stops it
